@@ -27,8 +27,8 @@ CONSTANTS
   MaxRich <- Unlimited
   PKinds <- KCmtCpp
   MaxEdits = 5
-  NCmtCls = 8
-  NCppForms = 27
+  NCmtCls = 9
+  NCppForms = 29
   NGarb = 7
   DirectiveCls <- DirCls
 INVARIANT WellNested
